@@ -231,6 +231,11 @@ def converter_updates(E, cfg):
         pos = E.choice('pos', [0, 1, 2, 3])
         specs = list(good)
         specs.insert(pos, bads[bad_name])
+        # a currency named by its code that has not been registered yet must not become registered by the attempt
+        with_code = E.choice('unregistered-code-first', [False, True])
+        if with_code:
+            specs.insert(0, ('CHF', '0.95', 1))
+        dirs_before = D.observe_directories(['CHF', 'QQQ'])
         try:
             conv.update(2024, specs)
         except (ValueError, TypeError):
@@ -240,6 +245,8 @@ def converter_updates(E, cfg):
         else:
             E.fail('update-with-bad-rate-spec-rejected', key='update:bad-spec:%s:accepted' % bad_name)
             return
+        E.check(D.observe_directories(['CHF', 'QQQ']) == dirs_before, 'rejected-update-leaves-directories-unchanged',
+                key='update:bad-spec:directories', info=[bad_name, pos, with_code])
         after = _conv_obs(conv)
         E.check(after[0] == before[0], 'rejected-update-leaves-rate-table-unchanged',
                 key='update:bad-spec:partial-update%s' % ('' if pos else ':bad-entry-first'), info=[bad_name, pos])
